@@ -391,6 +391,22 @@ func RunEnumWorker(p Params) *Summary {
 			}
 		}
 	}
+	// (j) number spellings: every ordered pair of 27 spellings (equal values spelled differently,
+	// values beyond float64, beyond int64, exponents beyond what big-number parsers accept) as the
+	// same member of two objects and as the element of two arrays
+	{
+		nums := []string{"0", "-0", "0.0", "1", "1.0", "1e0", "10e-1", "1E+0", "100", "1e2", "0.1", "1e-1", "1e400", "1E400", "10e399", "-1e400", "1e-400",
+			"1e1000001", "10e1000000", "1e-1000001", "9007199254740993", "9007199254740992.0", "123456789012345678901234567890", "1.7976931348623157e308", "4.9e-324", "1e19", "18446744073709551616"}
+		for _, target := range targets {
+			for _, x := range nums {
+				for _, y := range nums {
+					if mine() {
+						exec(pairScenario(seed, target, `{"n":`+x+`,"k":[`+y+`]}`, `{"n":`+y+`,"k":[`+x+`]}`, item), "number-spelling-pair")
+					}
+				}
+			}
+		}
+	}
 	// (i) alias flow: every ordered pair of copy/move operations over six nested locations of a
 	// small document - a node that ends up linked twice, below itself or moved away from under a
 	// copy of it must still serialise, in both packages
